@@ -3,7 +3,8 @@
    up to two answers of types A / AAAA / CNAME / PTR, names of up to three labels sharing suffixes) and EVERY compression
    plan over {-1, 0, 1, 2} per name of the message, Decode(Encode(m, plan)) is that message, with every PTR name filling its RDATA exactly.
    Every encoding is printed (<<"ENC", octets>>); checks/C37.py feeds these to the real decoder. *)
-EXTENDS DnsMsg, FiniteSets
+EXTENDS DnsMsg, FiniteSets, Json
+CONSTANT Thorough        \* FALSE: fewer two-answer messages (quick tier)
 La == <<97>>
 Lb == <<98, 99>>
 Lc == <<119, 119, 119>>
@@ -16,7 +17,7 @@ RRs(c) == {RRA(Names[c]), RRAAAA(Names[3]), RRCNAME(Names[c])} \cup {RRPTR(Names
 Q(n, t) == [name |-> n, type |-> t, class |-> 1]
 Msg(qd, an, rc) == [id |-> 4660, qr |-> 1, opcode |-> 0, aa |-> 0, tc |-> 0, rd |-> 1, ra |-> 1, rcode |-> rc, qd |-> qd, an |-> an, ns |-> <<>>, ar |-> <<>>]
 \* family c: the owner name of the first records and the question name vary with c
-Msgs(c) == {Msg(<<Q(Names[c], 1)>>, an, 0) : an \in {<<>>} \cup {<<r>> : r \in RRs(c)} \cup {<<r, s>> : r \in RRs(c), s \in {RRA(Names[3]), RRPTR(Names[4], Names[3])}}}
+Msgs(c) == {Msg(<<Q(Names[c], 1)>>, an, 0) : an \in {<<>>} \cup {<<r>> : r \in RRs(c)} \cup {<<r, s>> : r \in (IF Thorough THEN RRs(c) ELSE {RRA(Names[c]), RRPTR(Names[4], Names[3])}), s \in {RRA(Names[3]), RRPTR(Names[4], Names[3])}}}
            \cup {Msg(<<Q(Names[c], 12), Q(Names[3], 28)>>, <<RRA(Names[4])>>, 3)}
 NamesIn(m) == Len(m.qd) + Len(m.an) + Cardinality({j \in 1..Len(m.an) : m.an[j].type = TypePTR})
 PlanVals == {0 - 1, 0, 1, 2}
@@ -29,5 +30,5 @@ RoundTrip == st.kind = "case" =>
   LET x == Encode(st.m, st.plan)
       d == Decode(x) IN
   d.ok /\ d.exact /\ d.end = Len(x) /\ CanonMsg(d.m) = CanonMsg(st.m)
-Emit == st.kind = "case" => PrintT(<<"ENC", Encode(st.m, st.plan)>>)
+Emit == st.kind = "case" => PrintT(ToJson([enc |-> Encode(st.m, st.plan)]))
 ====
